@@ -3,7 +3,8 @@
 usage: baseline_cmp.py <junit.xml>   -> prints tests of stable_pass that did not pass; exit 0 iff none"""
 import json, sys, xml.etree.ElementTree as ET
 base = set(json.load(open('/root/.vp/BASELINE.json'))['stable_pass'])
-root = ET.parse(sys.argv[1]).getroot()
+ran_only = '--ran-only' in sys.argv
+root = ET.parse([a for a in sys.argv[1:] if not a.startswith('--')][0]).getroot()
 passed, failed = set(), set()
 for tc in root.iter('testcase'):
     tid = (tc.get('classname') or '') + '::' + (tc.get('name') or '')
@@ -14,8 +15,8 @@ for tc in root.iter('testcase'):
     else:
         passed.add(tid)
 passed -= failed
-missing = sorted(base - passed)
-print('baseline stable_pass=%d passed_now=%d failed_now=%d regressions=%d' % (len(base), len(passed), len(failed), len(missing)))
+missing = sorted((base & failed) if ran_only else (base - passed))
+print(('[ran-only] ' if ran_only else '') + 'baseline stable_pass=%d passed_now=%d failed_now=%d regressions=%d' % (len(base), len(passed), len(failed), len(missing)))
 for m in missing[:40]:
     print('  REGRESSION', m)
 sys.exit(1 if missing else 0)
